@@ -143,8 +143,18 @@ def generate(tier, rng, around=None):
         for b in range(n + 1):
             for e in EVENTS:
                 cases.append(dict(extra, prog=prog, events=life.place(n, [(b, e)]) + [['drain', 30]], _prog=name + '+missing-output'))
-    return {'cases': cases, 'exhaustive': True,
-            'scope': '%d programs x 3 listener variants x every single request (6 kinds) at every callback boundary; pairs sampled' % len(names)}
+    # the schedules without a listener, once more with a listener that reacts to some notification with a control call of its own
+    # (play / pause / kill / fail, made re-entrantly from inside the transition or the pause that notifies it): sampled
+    pool = [c for c in cases if not c.get('listeners') and '_corpus' not in c]
+    kl = {'quick': 200, 'thorough': 5000, 'widen': 500}[tier]
+    for c in (pool if len(pool) <= kl else rng.sample(pool, kl)):
+        l = rng.choice(['on_process_running', 'on_process_waiting', 'on_process_paused', 'on_process_played', 'on_process_finished',
+                        'on_process_killed', 'on_process_excepted'])
+        rc = rng.choice([['play'], ['pause', None], ['kill', 'lk'], ['fail', 'lf']])
+        cases.append(dict(c, listeners=[[l, rng.choice([0, 1]), rc]]))
+    return {'cases': cases, 'exhaustive': False,
+            'scope': '%d programs x 3 listener variants x every single request (6 kinds) at every callback boundary; pairs sampled; '
+                     'sampled: listeners reacting to any notification with play / pause / kill / fail' % len(names)}
 
 
 def shrink_candidates(case):
